@@ -1,9 +1,9 @@
 (* RunConformInitialInit.v -- C01 on charts with <initial> elements and deep / multiple initial attributes: the
    initial microstep.  LargeMicroStep::step on a pristine interpreter (enter the completion of <scxml>) against the
    start of Appendix D's interpret() as Spec.spec_run has it (RunConformInit.spec_init).  The context is
-   (<scxml>, its completion); <scxml> has no <initial> child (root_plainb) and its 'initial' attribute names one
-   state (root_singleb: with several, Spec.spec_run is not Appendix D -- it interleaves addDescendantStatesToEnter
-   and addAncestorStatesToEnter per target).  Proofs only. *)
+   (<scxml>, its completion); <scxml> has no <initial> child (root_plainb); its 'initial' attribute may name several
+   states at any depth (Spec.spec_run applies computeEntrySet's loop body to the document's initial transition).
+   Proofs only. *)
 From V Require Import Base NameMatch NameMatchLemmas Chart Exec Large LargeLemmas Spec Legal SetLemmas LegalAbstract LegalLarge
   Interp LegalRun WfCore LegalOracle LargeCacheLemmas SelectConform SelectConformLemmas SelectConformRoot
   MicroConform MicroConformLemmas MicroConformEntry MicroConformCompose MicroConformFlatten
@@ -55,6 +55,29 @@ Proof.
   destruct (Nat.eq_dec x 0) as [->|Hne]; [right; intros H; apply Low0 in H; exact (hanc_irrefl c W _ H)|].
   destruct (Nat.lt_ge_cases x n) as [Hlt|Hge]; [left; apply Low0; apply (hanc_root c W); lia|].
   right. intros H. apply Low0 in H. destruct (hanc_lt c W _ _ H). unfold n in *. lia.
+Qed.
+
+Lemma n_pos0 : 0 < n.
+Proof.
+  destruct (Nat.lt_ge_cases 0 n) as [H|H]; [exact H|]. exfalso. unfold kd, st in root_compound.
+  rewrite nth_overflow in root_compound by exact H. discriminate.
+Qed.
+
+Lemma eff_h0 hv0 tgl x : In x (eff_targets c (Spec.n c) hv0 tgl) <-> In x tgl.
+Proof.
+  unfold Spec.n. pose proof n_pos0 as Hn. unfold n in Hn. destruct (nstates c) as [|m]; [lia|]. cbn [eff_targets].
+  assert (Hg : forall l acc, In x (fold_left (fun acc0 s => if is_history_state c s
+                                     then match hv_get hv0 s with
+                                          | Some v => unionn acc0 v
+                                          | None => match pseudo_trans c s with
+                                                    | Some t => unionn acc0 (eff_targets c m hv0 (ft_targets t))
+                                                    | None => acc0
+                                                    end
+                                          end
+                                     else addn s acc0) l acc) <-> In x acc \/ In x l).
+  { induction l as [|y l IH]; intros acc; cbn [fold_left]; [cbn; tauto|].
+    rewrite (hist_false_h c Hnh), IH, me_In_addn. cbn [In]. intuition. }
+  rewrite Hg. cbn [In]. tauto.
 Qed.
 
 Notation E0 := (HE0 c (cpl 0)).
@@ -182,33 +205,22 @@ Hypothesis Hflags : forall x ti, is_pseudo (fs_type (st c x)) = true -> In ti (f
 Let r := fs_sid (st c 0).
 Let ds := fs_data (st c 0).
 
-(* Appendix D's initial entry set *)
-Lemma spec_init_eset_ctx : (exists g, fs_completion (st c 0) = [g]) -> exists g, fs_completion (st c 0) = [g] /\
-  spec_init_eset c [] = ctx_enter c [] 0 [g] [g] {| e_enter := []; e_default := []; e_histcontent := [] |}.
+(* Appendix D's initial entry set: computeEntrySet's loop body for the document's initial transition *)
+Lemma spec_init_eset_ctx :
+  spec_init_eset c [] = ctx_enter c [] 0 (fs_completion (st c 0)) (eff_targets c (Spec.n c) [] (fs_completion (st c 0)))
+                                  {| e_enter := []; e_default := []; e_histcontent := [] |}.
 Proof.
-  intros root_single. destruct root_single as (g & Hg). exists g. split; [exact Hg|].
-  unfold spec_init_eset. change (fst (initial_of c 0)) with (itg c 0). rewrite (itg_root c root_plain), Hg. reflexivity.
+  unfold spec_init_eset. rewrite (entry_step_init c [] _ (wh_root_par c W)).
+  change (fst (initial_of c 0)) with (itg c 0). rewrite (itg_root c root_plain). reflexivity.
 Qed.
 
-Lemma spec_init_GI : (exists g, fs_completion (st c 0) = [g]) -> GI c (B0 c) (fun _ => False) (spec_init_eset c []) /\
+Lemma spec_init_GI : GI c (B0 c) (fun _ => False) (spec_init_eset c []) /\
   forall y, LegalHistBase.IC c 0 (fs_completion (st c 0)) y -> In y (e_enter (spec_init_eset c [])).
 Proof.
-  intros root_single. destruct (spec_init_eset_ctx root_single) as (g & Hg & ->).
+  rewrite spec_init_eset_ctx.
   destruct (ctx_enter_ok c W Hnh HcplOK HcplAnti HtgAnti (B0 c) (HB10 c W HcplOK HcplAnti HtgAnti root_compound root_plain) (HB20 c)
-              [] 0 [g] [g] _ (conj eq_refl (eq_sym Hg)) (fun x => iff_refl _) (GI_empty c (B0 c))) as (A & _ & C).
-  split; [exact A|]. rewrite Hg. exact C.
-Qed.
-
-(* Appendix D as the Recommendation has it: enterStates([doc.initial.transition]) adds the descendants of ALL
-   targets of the initial transition, then their ancestors *)
-Definition appendixD_init_eset : eset :=
-  ctx_enter c [] 0 (fs_completion (st c 0)) (fs_completion (st c 0)) {| e_enter := []; e_default := []; e_histcontent := [] |}.
-
-Lemma appendixD_init_GI : GI c (B0 c) (fun _ => False) appendixD_init_eset /\
-  forall y, LegalHistBase.IC c 0 (fs_completion (st c 0)) y -> In y (e_enter appendixD_init_eset).
-Proof.
-  destruct (ctx_enter_ok c W Hnh HcplOK HcplAnti HtgAnti (B0 c) (HB10 c W HcplOK HcplAnti HtgAnti root_compound root_plain) (HB20 c)
-              [] 0 (fs_completion (st c 0)) (fs_completion (st c 0)) _ (conj eq_refl eq_refl) (fun x => iff_refl _) (GI_empty c (B0 c))) as (A & _ & C).
+              [] 0 (fs_completion (st c 0)) (eff_targets c (Spec.n c) [] (fs_completion (st c 0))) _ (conj eq_refl eq_refl)
+              (eff_h0 c Hnh root_compound [] (fs_completion (st c 0))) (GI_empty c (B0 c))) as (A & _ & C).
   split; [exact A | exact C].
 Qed.
 
@@ -348,7 +360,7 @@ Qed.
 
 End InitStepH.
 
-(* against Spec.spec_run's start (one target) and against Appendix D's order (any number of targets) *)
+(* against Spec.spec_run's start *)
 Section InitStepCor.
 Variable c : fchart.
 Hypothesis W : WFH c.
@@ -379,7 +391,7 @@ Hypothesis HH : HistOK c (l_hist l).
 Hypothesis Hdyn : same_dyn xl xs.
 Let r := fs_sid (st c 0).
 
-Theorem initial_step_initial_sec : (exists g, fs_completion (st c 0) = [g]) ->
+Theorem initial_step_initial_sec : ssorted (fs_completion (st c 0)) ->
   let rl := microstep lg_fixed ex_fixed c l (emit TMsB xl) (fs_completion (st c 0)) [] [] true in
   let q := spec_init c xs in
   corr c (fst rl) (fst q) /\ s_hv (fst q) = [] /\ same_dyn (snd rl) (snd q) /\
@@ -389,25 +401,8 @@ Theorem initial_step_initial_sec : (exists g, fs_completion (st c 0) = [g]) ->
     x_out (snd rl) = TMsE :: d ++ TEe r :: TEb r :: TMsB :: x_out xl /\
     x_out (snd q) = spec_cfg_tok c (fst q) :: TMsE :: d ++ TDiag dg :: TMsB :: x_out xs.
 Proof.
-  intros Hsingle. rewrite (spec_init_is_e c xs).
-  destruct (spec_init_GI c W Hnh HcplOK HcplAnti HtgAnti root_compound root_plain Hsingle) as [HG Hbase].
-  assert (Hsorted : ssorted (fs_completion (st c 0))) by (destruct Hsingle as (g & ->); cbn; split; [intros y [] | exact I]).
-  exact (initial_step_e_sec c W Hnh HcplOK HcplAnti HtgAnti Hnamed root_compound root_plain Hsorted Hroot_onentry Hsilent Hbody Hdata
-           HPAR Hfin_par Hfin_up Hflags l xl xs Hpr Hcfg Hinitd HH Hdyn _ HG Hbase).
-Qed.
-
-Theorem initial_step_appendixD_sec : ssorted (fs_completion (st c 0)) ->
-  let rl := microstep lg_fixed ex_fixed c l (emit TMsB xl) (fs_completion (st c 0)) [] [] true in
-  let q := spec_init_e c (appendixD_init_eset c) xs in
-  corr c (fst rl) (fst q) /\ s_hv (fst q) = [] /\ same_dyn (snd rl) (snd q) /\
-  l_spont (fst rl) = true /\ l_init (fst rl) = true /\ l_fin (fst rl) = false /\ l_stable (fst rl) = false /\
-  l_cancelled (fst rl) = l_cancelled l /\
-  exists d dg,
-    x_out (snd rl) = TMsE :: d ++ TEe r :: TEb r :: TMsB :: x_out xl /\
-    x_out (snd q) = spec_cfg_tok c (fst q) :: TMsE :: d ++ TDiag dg :: TMsB :: x_out xs.
-Proof.
-  intros Hsorted.
-  destruct (appendixD_init_GI c W Hnh HcplOK HcplAnti HtgAnti root_compound root_plain) as [HG Hbase].
+  intros Hsorted. rewrite (spec_init_is_e c xs).
+  destruct (spec_init_GI c W Hnh HcplOK HcplAnti HtgAnti root_compound root_plain) as [HG Hbase].
   exact (initial_step_e_sec c W Hnh HcplOK HcplAnti HtgAnti Hnamed root_compound root_plain Hsorted Hroot_onentry Hsilent Hbody Hdata
            HPAR Hfin_par Hfin_up Hflags l xl xs Hpr Hcfg Hinitd HH Hdyn _ HG Hbase).
 Qed.
